@@ -453,3 +453,401 @@ def _listdir(I, args, kwargs):
     if fs is not None:
         return fs.listdir(I, args[0])
     return NotImplemented
+
+
+# ---------------------------------------------------------------------------------------------------
+# INI: configparser.RawConfigParser / ConfigParser accessors on the real parser object's _sections
+#
+# Models of the documented behaviour of the accessor methods productmd uses, operating on the real parser's
+# own dictionaries (productmd's SortedDict, iterated through the interpreter, decides every order) and calling
+# productmd's optionxform override.  Interpolation (BasicInterpolation) is modelled for values without '%('
+# (stated cut): set refuses a lone '%', get turns '%%' into '%'.  write() produces a DocText("ini") holding the
+# ordered sections/options; read_file() of such a text rebuilds the sections *provided every value is
+# representable in the file syntax* (single line, no leading/trailing blank) - the property's own restriction,
+# imposed as a stated cut.  Concrete text goes through the real parser.
+import configparser as _cp
+import re as _re
+
+from .models import FUNC_MODELS, iterate, to_str, filter_chars, SymMethod, STR_METHODS
+from .sstr import Atom, as_atom
+from .terms import Or, Not, Eq, Lt, Ne, in_ranges
+from .values import mark
+
+
+def _parser_model(*fns):
+    def deco(m):
+        for f in fns:
+            FUNC_MODELS[id(f)] = (f, m)
+        return m
+    return deco
+
+
+def _xform(I, parser, option):
+    return I.call(I.get_attr(parser, "optionxform"), [option], {})
+
+
+def _section_dict(I, parser, section, err=True):
+    if contains_sym(section):
+        I.unsupported("symbolic INI section name")
+    if section == parser.default_section:
+        return parser._defaults
+    d = parser._sections.get(section)
+    if d is None and err:
+        I.raise_(_cp.NoSectionError(section))
+    return d
+
+
+def _has_percent(v):
+    """the value may contain '%' as far as its declared alphabet tells"""
+    if isinstance(v, str):
+        return "%" in v
+    for seg in v.segs:
+        if isinstance(seg, str):
+            if "%" in seg:
+                return True
+        elif seg.alpha is None or any(lo <= 37 <= hi for lo, hi in seg.alpha):
+            return True
+    return False
+
+
+def _pairs_mask(a):
+    """for the flat atom: (first[k], second[k]) - position k is the first / second character of a '%%' pair,
+    pairing left to right"""
+    first = []
+    second = []
+    prev_first = False
+    for k in range(a.m):
+        is_p = And(Lt(k, a.n), Eq(a.c[k], 37))
+        nxt = And(Lt(k + 1, a.n), Eq(a.c[k + 1], 37)) if k + 1 < a.m else False
+        f = And(Not(prev_first), is_p, nxt)
+        first.append(f)
+        second.append(prev_first)
+        prev_first = f
+    return first, second
+
+
+def _interp_kind(I, parser):
+    t = type(parser._interpolation)
+    if t is _cp.BasicInterpolation:
+        return "basic"
+    if t is _cp.Interpolation:
+        return "none"             # interpolation=None: values pass through unchanged
+    I.unsupported("INI interpolation %s" % t.__name__)
+
+
+def interpolation_before_set(I, value, kind="basic"):
+    """BasicInterpolation.before_set: a '%' must belong to '%%' or '%(name)s'"""
+    if kind == "none":
+        return value
+    if not isinstance(value, SymStr) or not _has_percent(value):
+        if isinstance(value, str):
+            tmp = _re.sub(r"%\(([^)]+)\)s", "", value.replace("%%", ""))
+            if "%" in tmp:
+                I.raise_(ValueError("invalid interpolation syntax in %r at position %d" % (value, tmp.find("%"))))
+        return value
+    a = value.flat()
+    I.cut(Not(a.contains("%(")), "INI values containing '%(' (interpolation references) are not modelled")
+    first, second = _pairs_mask(a)
+    lone = Or(*[And(Lt(k, a.n), Eq(a.c[k], 37), Not(first[k]), Not(second[k])) for k in range(a.m)])
+    if I.decide(lone):
+        I.raise_(ValueError("invalid interpolation syntax in value"))
+    return value
+
+
+def interpolation_before_get(I, value, kind="basic"):
+    """BasicInterpolation.before_get: '%%' -> '%' (lone '%' is a syntax error)"""
+    if value is None or kind == "none":
+        return value
+    if not isinstance(value, SymStr):
+        if isinstance(value, str) and "%" in value:
+            # the real interpolation on concrete text without references
+            if "%(" in value:
+                I.unsupported("INI interpolation reference in concrete text")
+            out = []
+            i = 0
+            while i < len(value):
+                if value[i] == "%":
+                    if value[i + 1:i + 2] == "%":
+                        out.append("%")
+                        i += 2
+                        continue
+                    I.raise_(_cp.InterpolationSyntaxError("option", "section", "'%%' must be followed by '%%' or '(', found: %r" % value[i:]))
+                out.append(value[i])
+                i += 1
+            return "".join(out)
+        return value
+    if not _has_percent(value):
+        return value
+    a = value.flat()
+    I.cut(Not(a.contains("%(")), "INI values containing '%(' (interpolation references) are not modelled")
+    first, second = _pairs_mask(a)
+    lone = Or(*[And(Lt(k, a.n), Eq(a.c[k], 37), Not(first[k]), Not(second[k])) for k in range(a.m)])
+    if I.decide(lone):
+        I.raise_(_cp.InterpolationSyntaxError("option", "section", "'%' must be followed by '%' or '('"))
+    anyp = Or(*first)
+    if not I.decide(anyp):
+        return value
+    keep = [And(Lt(k, a.n), Not(second[k])) for k in range(a.m)]
+    return mk([filter_chars(a, keep)])
+
+
+@_parser_model(_cp.ConfigParser.set, _cp.RawConfigParser.set)
+def _ini_set(I, args, kwargs):
+    parser, section, option = args[0], args[1], args[2]
+    value = args[3] if len(args) > 3 else kwargs.get("value")
+    if isinstance(parser, _cp.ConfigParser):
+        if not issubclass(pytype(option), str):
+            I.raise_(TypeError("option keys must be strings"))
+        if not (parser._allow_no_value and value is None) and not issubclass(pytype(value), str):
+            I.raise_(TypeError("option values must be strings"))
+    if contains_sym(option):
+        I.unsupported("symbolic INI option name")
+    if value is not None:
+        value = interpolation_before_set(I, value, _interp_kind(I, parser))
+    if not section or section == parser.default_section:
+        d = parser._defaults
+    else:
+        d = parser._sections.get(section)
+        if d is None:
+            I.raise_(_cp.NoSectionError(section))
+    I.setitem(d, _xform(I, parser, option), value)
+    return None
+
+
+def _ini_raw_get(I, parser, section, option):
+    d = _section_dict(I, parser, section, err=False)
+    if d is None:
+        if section != parser.default_section:
+            I.raise_(_cp.NoSectionError(section))
+        d = parser._defaults
+    option = _xform(I, parser, option)
+    if option in d:
+        return d[option]
+    if option in parser._defaults:
+        return parser._defaults[option]
+    I.raise_(_cp.NoOptionError(option, section))
+
+
+@_parser_model(_cp.RawConfigParser.get)
+def _ini_get(I, args, kwargs):
+    parser, section, option = args[0], args[1], args[2]
+    if kwargs.get("vars") is not None:
+        I.unsupported("ConfigParser.get(vars=...)")
+    fallback = kwargs.get("fallback", _cp._UNSET)
+    try:
+        v = _ini_raw_get(I, parser, section, option)
+    except (_cp.NoSectionError, _cp.NoOptionError):
+        if fallback is _cp._UNSET:
+            raise
+        return fallback
+    if kwargs.get("raw") or v is None:
+        return v
+    return interpolation_before_get(I, v, _interp_kind(I, parser))
+
+
+@_parser_model(_cp.RawConfigParser.getint)
+def _ini_getint(I, args, kwargs):
+    v = _ini_get(I, args[:3], {})
+    return I.call(int, [v], {})
+
+
+@_parser_model(_cp.RawConfigParser.getfloat)
+def _ini_getfloat(I, args, kwargs):
+    v = _ini_get(I, args[:3], {})
+    return I.call(float, [v], {})
+
+
+@_parser_model(_cp.RawConfigParser.getboolean)
+def _ini_getboolean(I, args, kwargs):
+    v = _ini_get(I, args[:3], {})
+    parser = args[0]
+    if isinstance(v, SymStr):
+        low = STR_METHODS["lower"](I, v, [], {})
+        states = parser.BOOLEAN_STATES
+        keys = sorted(states)
+        conds = [models.bterm(I.eq(low, k)) for k in keys]
+        j = I.choose_feasible(conds + [Not(Or(*conds))])
+        if j == len(keys):
+            I.raise_(ValueError("Not a boolean"))
+        return states[keys[j]]
+    if v.lower() not in parser.BOOLEAN_STATES:
+        I.raise_(ValueError("Not a boolean: %s" % v))
+    return parser.BOOLEAN_STATES[v.lower()]
+
+
+@_parser_model(_cp.RawConfigParser.has_option)
+def _ini_has_option(I, args, kwargs):
+    parser, section, option = args[0], args[1], args[2]
+    if not section or section == parser.default_section:
+        return _xform(I, parser, option) in parser._defaults
+    d = parser._sections.get(section)
+    if d is None:
+        return False
+    option = _xform(I, parser, option)
+    return option in d or option in parser._defaults
+
+
+@_parser_model(_cp.RawConfigParser.has_section)
+def _ini_has_section(I, args, kwargs):
+    return args[1] in args[0]._sections
+
+
+@_parser_model(_cp.RawConfigParser.sections)
+def _ini_sections(I, args, kwargs):
+    return list(I.call(I.get_attr(args[0]._sections, "keys"), [], {}))
+
+
+@_parser_model(_cp.RawConfigParser.options)
+def _ini_options(I, args, kwargs):
+    parser, section = args[0], args[1]
+    d = _section_dict(I, parser, section)
+    out = list(iterate(I, d))
+    for k in parser._defaults:
+        if k not in out:
+            out.append(k)
+    return out
+
+
+@_parser_model(_cp.RawConfigParser.items)
+def _ini_items(I, args, kwargs):
+    parser = args[0]
+    if len(args) < 2:
+        I.unsupported("ConfigParser.items() without a section")
+    section = args[1]
+    d = _section_dict(I, parser, section)
+    keys = list(iterate(I, d))
+    for k in parser._defaults:
+        if k not in keys:
+            keys.append(k)
+    out = []
+    for k in keys:
+        v = d[k] if k in d else parser._defaults[k]
+        if not kwargs.get("raw") and v is not None:
+            v = interpolation_before_get(I, v, _interp_kind(I, parser))
+        out.append((k, v))
+    return out
+
+
+@_parser_model(_cp.ConfigParser.add_section, _cp.RawConfigParser.add_section)
+def _ini_add_section(I, args, kwargs):
+    parser, section = args[0], args[1]
+    if contains_sym(section):
+        I.unsupported("symbolic INI section name")
+    if isinstance(parser, _cp.ConfigParser):
+        return I.native(_cp.ConfigParser.add_section, parser, section)
+    return I.native(_cp.RawConfigParser.add_section, parser, section)
+
+
+@engine_type
+class IniDoc(object):
+    """ordered sections and options of a written INI text"""
+
+    def __init__(self, sections, space):
+        self.sections = sections          # list of (name, [(key, value)])
+        self.space = space
+
+
+def _ini_doc_eq(I, a, b):
+    if a.space != b.space or [s for s, _ in a.sections] != [s for s, _ in b.sections]:
+        return False
+    terms = []
+    for (_, ia), (_, ib) in zip(a.sections, b.sections):
+        if [k for k, _ in ia] != [k for k, _ in ib]:
+            return False
+        for (_, va), (_, vb) in zip(ia, ib):
+            e = I.eq(va, vb)
+            if e is False:
+                return False
+            if e is not True:
+                terms.append(models.bterm(e))
+    return mkbool(And(*terms))
+
+
+_orig_doc_eq = DocText.psx_eq
+
+
+def _doc_eq(self, other):
+    from .interp import current
+    if isinstance(other, DocText) and self.kind == "ini" and other.kind == "ini":
+        return _ini_doc_eq(current(), self.doc, other.doc)
+    return _orig_doc_eq(self, other)
+
+
+DocText.psx_eq = _doc_eq
+
+
+@_parser_model(_cp.RawConfigParser.write)
+def _ini_write(I, args, kwargs):
+    parser, fp = args[0], args[1]
+    space = args[2] if len(args) > 2 else kwargs.get("space_around_delimiters", True)
+    sections = []
+    if parser._defaults:
+        sections.append((parser.default_section, [(k, v) for k, v in I.call(I.get_attr(parser._defaults, "items"), [], {})]))
+    for name in iterate(I, parser._sections):
+        items = list(I.call(I.get_attr(parser._sections[name], "items"), [], {}))
+        sections.append((name, [(k, v) for k, v in items]))
+    if not any(contains_sym(v) for _, items in sections for _, v in items):
+        # fully concrete: the real writer
+        out = io.StringIO()
+        I.native(_cp.RawConfigParser.write, parser, out, space)
+        I.call(I.get_attr(fp, "write"), [out.getvalue()], {})
+        return None
+    for _, items in sections:
+        for k, v in items:
+            if v is not None and not issubclass(pytype(v), str):
+                I.raise_(TypeError("can only concatenate str"))
+    text = DocText("ini", IniDoc(sections, bool(space)), None)
+    if isinstance(fp, io.IOBase):
+        text = "<document with symbolic content>"
+    I.call(I.get_attr(fp, "write"), [text], {})
+    return None
+
+
+def _representable(I, v):
+    """the value survives 'key = value' + parsing: one line, no leading / trailing blank"""
+    if v is None or isinstance(v, str):
+        return True
+    a = v.flat()
+    sp = sstr.table("space")
+    no_nl = a.char_pred_all(lambda c: And(Ne(c, 10), Ne(c, 13)))
+    first_ok = Or(Eq(a.n, 0), Not(in_ranges(a.c[0], sp))) if a.m else True
+    last_ok = Or(Eq(a.n, 0), Not(in_ranges(a.at(a.n - 1), sp))) if a.m else True
+    return And(no_nl, first_ok, last_ok)
+
+
+@_parser_model(_cp.RawConfigParser.read_file)
+def _ini_read_file(I, args, kwargs):
+    parser, f = args[0], args[1]
+    content = None
+    if isinstance(f, SymIO):
+        content = f.content() if f.pos_at_start else ""
+    if isinstance(content, DocText):
+        if content.kind != "ini":
+            I.raise_(_cp.MissingSectionHeaderError("<json>", 1, "{"))
+        f.pos_at_start = False
+        doc = content.doc
+        for name, items in doc.sections:
+            if name == parser.default_section:
+                d = parser._defaults
+            else:
+                if name in parser._sections:
+                    I.raise_(_cp.DuplicateSectionError(name))
+                d = parser._dict()
+                parser._sections[name] = d
+                parser._proxies[name] = _cp.SectionProxy(parser, name)
+            for k, v in items:
+                I.cut(_representable(I, v), "INI values that are not representable in the file syntax (multi-line, leading/trailing blank)")
+                if isinstance(v, str) and v != v.strip():
+                    v = v.strip()
+                kk = _xform(I, parser, k.rstrip())
+                I.setitem(d, kk, v)
+        return None
+    if isinstance(content, SymStr):
+        I.unsupported("parsing free-form symbolic INI text")
+    if isinstance(f, SymIO):
+        return I.native(_cp.RawConfigParser.read_file, parser, io.StringIO(content), *args[2:], **kwargs)
+    return I.native(_cp.RawConfigParser.read_file, parser, f, *args[2:], **kwargs)
+
+
+import collections as _collections
+FUNC_MODELS[id(_collections.ChainMap)] = (_collections.ChainMap, lambda I, a, k: _collections.ChainMap(*a, **k))
